@@ -82,6 +82,14 @@ def gen_wkc_sites(ctx):
                 continue
             raw.append((f, fn))
 
+    # raw consumers whose body checks a working counter itself (`.wkc(` / `.maybe_wkc(`)
+    raw_checked = []
+    for f, fn in raw:
+        text = strip_comments(_cut_tests(open(os.path.join(root, f)).read()))
+        body = dict(_fn_bodies(text)).get(fn, "")
+        if re.search(r"\.(?:maybe_)?wkc\s*\(", body):
+            raw_checked.append((f, fn))
+
     def default_wkc(path, what):
         text = strip_comments(_cut_tests(open(os.path.join(root, path)).read()))
         body = dict(_fn_bodies(text)).get("new")
@@ -148,6 +156,8 @@ def gen_wkc_sites(ctx):
     L.append("def receiveWkcSites : List (String × String) := " + lst(recv_wkc))
     L.append("/-- every consumer of raw `ReceivedPdu`s that bypasses the builders (`into_pdu_iter(` / `first_pdu(`). -/")
     L.append("def rawPduSites : List (String × String) := " + lst(raw))
+    L.append("/-- those of them that apply `ReceivedPdu::wkc` / `maybe_wkc` to what they consume. -/")
+    L.append("def rawPduSitesChecked : List (String × String) := " + lst(raw_checked))
     # facts the group-state model (C10) uses: registers, AlControl length, per-frame cap of state checks
     reg = strip_comments(open(os.path.join(root, "register.rs")).read())
     for name, lean in [("AlControl", "REG_AL_CONTROL"), ("AlStatus", "REG_AL_STATUS"), ("AlStatusCode", "REG_AL_STATUS_CODE"),
